@@ -108,9 +108,10 @@ type jsScope struct {
 	parent *jsScope
 	decl   map[string]int // name -> binding id
 	// for legality checks
-	lexical map[string]bool
-	vars    map[string]bool // var/function names declared in this scope or hoisted through it
-	fn      *jsScope        // enclosing function (or module) body scope
+	lexical     map[string]bool
+	vars        map[string]bool // var/function names declared in this scope or hoisted through it
+	fn          *jsScope        // enclosing function (or module) body scope
+	catchSimple string          // catch scope whose parameter is this plain identifier: `var <name>` is allowed in its block (Annex B)
 }
 
 type jsGen struct {
@@ -190,7 +191,8 @@ func (g *jsGen) canDeclare(kind, cand string) bool {
 	case "var", "function":
 		// hoists to the enclosing function: illegal if a scope on the way declares the name lexically
 		for s := g.scope; s != nil; s = s.parent {
-			if s.lexical[cand] {
+			if s.lexical[cand] && !(kind == "var" && s.kind == "catch" && s.catchSimple == cand && s == g.scope) {
+				// (try {} catch (e) { var e } is allowed: the var belongs to the function, uses in the block denote the parameter)
 				return false
 			}
 			if s == g.scope.fn || s.kind == "func" || s.kind == "module" {
@@ -1093,6 +1095,9 @@ func (g *jsGen) stmt(depth int, top bool) *JSNode {
 			g.push("catch")
 			if r.Intn(4) > 0 {
 				n.Kids[1] = g.pattern("catch", 1)
+				if n.Kids[1].K == "ident" {
+					g.scope.catchSimple = n.Kids[1].S
+				}
 			} else {
 				n.Kids[1] = &JSNode{K: "nobinding"}
 			}
